@@ -749,6 +749,9 @@ func (g *FuncGen) trField(env *Env, x *EField) Val {
 		}
 		f, idx := findField(st, x.Name)
 		if f == nil {
+			if cl, gs, ok := g.ghostFieldClass(p.Elem(), x.Name); ok {
+				return Val{T: fmt.Sprintf("(select %s %s)", g.heapOf(env.cur, cl), base.T), S: gs}
+			}
 			g.unsup("no field %s in %s (stale-contract?)", x.Name, p.Elem())
 		}
 		_ = idx
@@ -786,6 +789,30 @@ func (g *FuncGen) trField(env *Env, x *EField) Val {
 	return Val{}
 }
 
+// ghostFieldClass resolves a ghost (model) field of a struct type: heap class and value sort.
+func (g *FuncGen) ghostFieldClass(t types.Type, name string) (string, Sort, bool) {
+	n, ok := types.Unalias(t).(*types.Named)
+	if !ok || n.Obj().Pkg() == nil {
+		return "", "", false
+	}
+	key := n.Obj().Pkg().Path() + "." + n.Obj().Name()
+	gf, ok := g.prog.GhostFields[key][name]
+	if !ok {
+		return "", "", false
+	}
+	pkg := g.prog.TypesPkgs[gf.Pkg]
+	if pkg == nil {
+		pkg = n.Obj().Pkg()
+	}
+	gt, gs := g.specType(gf.Type, pkg)
+	if gt != nil {
+		gs = g.c.sortOf(gt)
+	}
+	_, sname, _ := g.c.structOf(t)
+	cl := g.c.class("G_"+sname+"_"+sanitize(name), fmt.Sprintf("(Array Int %s)", gs))
+	return cl, gs, true
+}
+
 func findField(st *types.Struct, name string) (*types.Var, int) {
 	for i := 0; i < st.NumFields(); i++ {
 		if st.Field(i).Name() == name {
@@ -810,6 +837,18 @@ func (g *FuncGen) trIndex(env *Env, x *EIndex) Val {
 			return Val{T: fmt.Sprintf("(select (select %s (s_arr %s)) %s)", g.heapOf(env.cur, c.elemClass(t.Elem())), base.T, g.add64(fmt.Sprintf("(s_off %s)", base.T), i64)), S: c.sortOf(t.Elem()), GT: t.Elem()}
 		case *types.Map:
 			idx = g.coerceTo(idx, t.Key())
+			mvh := g.heapOf(env.cur, c.mapValClass(t))
+			if _, isSl := t.Elem().Underlying().(*types.Slice); isSl && strings.HasSuffix(mvh, "@0") && g.entry != nil {
+				// the entry heap is closed (see the field case above); stated once per class for all keys so
+				// that it is also available under quantifiers
+				key := "wfmv:" + mvh
+				if !c.declared[key] {
+					c.declared[key] = true
+					c.useQuant = true
+					v := fmt.Sprintf("(select (select %s qr) qk)", mvh)
+					c.assert(fmt.Sprintf("(forall ((qr Int) (qk %s)) (! %s :pattern (%s)))", c.sortOf(t.Key()), g.sliceWF(v, g.entry), v))
+				}
+			}
 			return Val{T: fmt.Sprintf("(select %s %s)", g.mapVals(env.cur, t, base.T), idx.T), S: c.sortOf(t.Elem()), GT: t.Elem()}
 		case *types.Array:
 			idx = g.defaultInt(idx)
@@ -976,6 +1015,34 @@ func (g *FuncGen) trCall(env *Env, x *ECall) Val {
 		}
 		c.note("C side: " + x.String() + " = " + n.String() + " (clang -target bpf, stub libbpf headers)")
 		return Val{S: "UNTYPED:" + n.String()}
+	case "store":
+		// store(S, k, v): functional update of a spec-level set/array (ghost state)
+		a := g.tr(env, x.Args[0])
+		if !strings.HasPrefix(a.S, "(Array ") {
+			g.unsup("store needs a set/array, got %s", a.S)
+		}
+		k := g.defaultInt(g.tr(env, x.Args[1]))
+		v := g.tr(env, x.Args[2])
+		es := arrayElemSort(a.S)
+		v = g.coerceTo2(v, es, nil)
+		return Val{T: fmt.Sprintf("(store %s %s %s)", a.T, k.T, v.T), S: a.S}
+	case "emptyset":
+		// emptyset(T): the empty set of T
+		t, s := g.specType(x.Args[0].String(), env.pkg)
+		if t != nil {
+			s = c.sortOf(t)
+		}
+		srt := fmt.Sprintf("(Array %s Bool)", s)
+		return Val{T: fmt.Sprintf("((as const %s) false)", srt), S: srt}
+	case "setOf":
+		// setOf(s): the set of elements of slice s (in the current state)
+		a := g.tr(env, x.Args[0])
+		sl, ok := a.GT.Underlying().(*types.Slice)
+		if a.S != SSlice || !ok || isStructType(sl.Elem()) {
+			g.unsup("setOf needs a slice of non-struct elements")
+		}
+		srt := fmt.Sprintf("(Array %s Bool)", c.sortOf(sl.Elem()))
+		return Val{T: g.sliceSetOf(g.heapOf(env.cur, c.elemClass(sl.Elem())), a.T, sl.Elem()), S: srt}
 	case "arrayOf":
 		// arrayOf(s): identity of the backing array of slice s (0 for a nil slice)
 		a := g.tr(env, x.Args[0])
